@@ -39,6 +39,7 @@ type FileCase struct {
 	Missing  []int   `json:"missing"`  // block classes made unavailable
 	FailAt   int     `json:"failat"`   // k-th load after opening fails
 	NotFound bool    `json:"notfound"` // injected error kind
+	Timeout  bool    `json:"timeout"`  // injected errors report themselves as timeouts
 	Mode     string  `json:"mode"`     // free tag: hist | seq | range | fault ...
 	Script   [][]any `json:"script"`
 }
@@ -264,6 +265,7 @@ func runFileCase(fc *FileCase, tr *Tr) error {
 		st.missing[key(fw.cids[m])] = true
 	}
 	st.notFound = fc.NotFound
+	st.timeout = fc.Timeout
 	st.logLoads = true
 	st.loadCount = 0
 	st.failLoadAt = fc.FailAt
